@@ -699,6 +699,13 @@ arguments and does not touch the Chaperone (the extractor probes this on every r
 keeps from a healing run is its counters.  An instance is what a fold depends on: the strategy list in force, the
 callbacks, and the counters. -/
 
+/-- methods of the Chaperone that constructing a `ChaperoneLoop` on it calls -/
+def loopCtorCalls : List String := []
+
+/-- methods of the Chaperone that one `heal` calls when the first `misfolds` generated texts misfold and the next one
+    folds: `fold_enhanced` once per attempt, nothing else (`healHFrom` is made of `foldXH` only) -/
+def healCallsFor (misfolds : Nat) : List String := List.replicate (misfolds + 1) "fold_enhanced"
+
 /-- one Chaperone as `fold` / `fold_enhanced` see it -/
 structure HInst (S C : Type) where
   cfg : Cfg
